@@ -68,6 +68,8 @@ type Engine struct {
 	fdecls         map[string]*frameDecl
 	usedAts        map[*AtSpec]bool
 	usedRangeSpecs map[*LoopSpec]bool
+	globalAddrs    []string
+	errGlobals     []string
 	modsetCache    map[*ssa.Function]map[string]bool
 }
 
@@ -257,7 +259,7 @@ func (e *Engine) reg(st *State, v ssa.Value) Val {
 	case *ssa.Const:
 		return e.constVal(x)
 	case *ssa.Global:
-		return ptrVal(&Ptr{Kind: pGlobal, Glob: x, Root: x.Type().(*types.Pointer).Elem()}, x.Type())
+		return e.globalAddr(x)
 	case *ssa.Function:
 		return Val{K: kFunc, Fn: x, Typ: x.Type()}
 	case *ssa.Builtin:
@@ -351,7 +353,7 @@ func (e *Engine) Run() (err error) {
 	if fn.Name() == "init" && fn.Pkg != nil {
 		// the package initializer runs once: its guard variable is false on entry
 		if g, ok := fn.Pkg.Members["init$guard"].(*ssa.Global); ok {
-			v := e.loadPtr(st, &Ptr{Kind: pGlobal, Glob: g, Root: g.Type().(*types.Pointer).Elem()})
+			v := e.loadThrough(st, e.globalAddr(g))
 			st.assume(fmt.Sprintf("(not %s)", v.T))
 		}
 	}
@@ -716,7 +718,21 @@ func (e *Engine) addrHeaps(addr ssa.Value, heaps map[string]bool) {
 			}
 		}
 	case *ssa.Global:
-		heaps["G_"+mangle(x.Pkg.Pkg.Name()+"_"+x.Name())] = true
+		// package-level variables live in the heap at fixed addresses
+		el := x.Type().(*types.Pointer).Elem()
+		switch u := el.Underlying().(type) {
+		case *types.Struct:
+			for i := 0; i < u.NumFields(); i++ {
+				n, _ := e.fieldMapName(el, i)
+				heaps[n] = true
+			}
+		case *types.Array:
+			n, _ := e.arrMapName(u.Elem())
+			heaps[n] = true
+		default:
+			n, _ := e.boxMapName(el)
+			heaps[n] = true
+		}
 	case *ssa.Alloc:
 		if x.Heap {
 			el := x.Type().(*types.Pointer).Elem()
